@@ -379,8 +379,9 @@ def run(ctx: Context) -> None:
     ok = all(norm_text(r.value) == 'box(*self.bounds)' for r in g1d.returns()) and g1d.returns()
     ctx.check('R06.7', bool(ok), "the CF 1-D geometry is the box of its bounds (cells tile the rectangle)", g1d, g1d.node)
     m = ctx.func(f"{BASE}.mask")
-    ok = any(isinstance(n, ast.GeneratorExp) and norm_text(n.generators[0].iter) == 'self.polygons' and ' is not None' in norm_text(n.elt) for n in ast.walk(m.node))
-    ctx.check('R06.6', ok, "the validity mask is derived from the published polygons", m, m.node)
+    from .common import polygons_mask_ok
+    ok, how = polygons_mask_ok(ctx, m)
+    ctx.check('R06.6', ok, "the validity mask is derived from the published polygons", m, m.node, construct=f"Convention.mask: {how}")
 
 
 # --------------------------------------------------------------------------- checker self-test
